@@ -137,6 +137,15 @@ SELF_BLOCK_OUT = "Output not allowed. The output was blocked by the 'self check 
 PREDEF = {"greet": "PREDEFGREETZ hello world", "help": "PREDEFHELPZ how can I help"}
 
 
+def eff(kind, verdict):
+    """The verdict a rail of `kind` can actually deliver (check/self cannot rewrite, rewrite cannot reject)."""
+    if kind in ("check", "self") and verdict == "rewrite":
+        return "accept"
+    if kind == "rewrite" and verdict == "reject":
+        return "accept"
+    return verdict
+
+
 def lineage(text):
     """(turn, call) of every LLM text that `text` is, or was rewritten from."""
     text = str(text)
@@ -222,6 +231,7 @@ class Session:
         self.faults = {(a, int(k)) for a, k in case.get("faults", [])}
         self.override = {(int(t), int(k)): text for t, k, text in case.get("llm_override", [])}
         self.in_flight = 0
+        self.seq = 0  # global order of rail invocations and LLM calls ("seq" in trace entries / call records)
 
     # ---- policy (override points) -------------------------------------------------------------
     def rail_kind(self, cat, idx):
@@ -269,15 +279,19 @@ class Session:
             cat = "in" if task == "self_check_input" else "out"
             idx = self.cfg[cat].index("self")
             seen = _between(prompt, 'Checked text: "', '"\nEnd of checked text')
-            verdict = self.rail_verdict(cat, idx, turn, seen)
+            verdict = eff("self", self.rail_verdict(cat, idx, turn, seen))
             self.trace.append(
-                {"rail": f"{cat}{idx}", "cat": cat, "idx": idx, "turn": turn, "text": seen, "ctx": seen, "verdict": verdict, "via": "llm"}
+                {"rail": f"{cat}{idx}", "cat": cat, "idx": idx, "turn": turn, "text": seen, "ctx": seen, "verdict": verdict, "via": "llm", "seq": self.tick()}
             )
             return "Yes" if verdict == "reject" else "No"
         # general / passthrough / anything else that asks for a message
         return f"{mk_llm(turn, k)} {body}"
 
     # ---- bookkeeping ---------------------------------------------------------------------------
+    def tick(self):
+        self.seq += 1
+        return self.seq
+
     def next_count(self, action_name):
         k = self.counts[action_name]
         self.counts[action_name] += 1
@@ -351,7 +365,7 @@ class ScriptedLLM(LLM):
         session, turn = current()
         k = len(session.calls_of_turn(turn))
         task = classify_prompt(prompt)
-        rec = {"turn": turn, "k": k, "task": task, "prompt": prompt, "stop": stop, "t_start": self.temperature, "t_end": None, "answer": None}
+        rec = {"turn": turn, "k": k, "task": task, "prompt": prompt, "stop": stop, "t_start": self.temperature, "t_end": None, "answer": None, "seq": session.tick()}
         session.llm_calls.append(rec)
         session.in_flight += 1
         return session, turn, k, task, rec
@@ -382,7 +396,7 @@ def _enter(action_name, entry):
     """Common prologue of every fake action: count, record, maybe raise the planned fault."""
     session, turn = current()
     k = session.next_count(action_name)
-    entry.update(turn=turn, action=action_name, k=k)
+    entry.update(turn=turn, action=action_name, k=k, seq=session.tick())
     session.trace.append(entry)
     if session.should_fail(action_name, k):
         entry["verdict"] = "raise"
@@ -410,13 +424,11 @@ def make_rail_action(cat, idx, action_name):
         entry = {"rail": f"{cat}{idx}", "cat": cat, "idx": idx, "text": text, "via": "action"}
         if context is not None:
             entry["ctx"] = context.get("user_message" if cat == "in" else "bot_message")
+            if cat == "out":
+                entry["user_ctx"] = context.get("user_message")
         session, turn = _enter(action_name, entry)
         kind = session.rail_kind(cat, idx)
-        verdict = session.rail_verdict(cat, idx, turn, text)
-        if kind == "check" and verdict == "rewrite":
-            verdict = "accept"
-        if kind == "rewrite" and verdict == "reject":
-            verdict = "accept"
+        verdict = eff(kind, session.rail_verdict(cat, idx, turn, text))
         entry["verdict"] = verdict
         if kind == "check":
             return verdict != "reject"
